@@ -305,5 +305,11 @@ package lexer
 //@   ensures result0 == (bracesAt(l.input, l.pos) && byteAt(l.input, l.pos-1) != '\\')
 //@   ensures result1 == (bracesAt(l.input, l.pos) && byteAt(l.input, l.pos-1) == '\\')
 //@   modifies nothing
+// C05: only "@elseif", "@breakIf" and "@continueIf" continue a shorter directive; anything else
+// glued to @else, @break or @continue is text
 //@ func (l *Lexer) isPotentiallyLong
-//@   inline
+//@   requires LexInv(l)
+//@   ensures result == ((tok == token.ELSE && l.char == 'i' && byteAt(l.input, l.pos+1) == 'f')
+//@        || (tok == token.BREAK && l.char == 'I' && byteAt(l.input, l.pos+1) == 'f')
+//@        || (tok == token.CONTINUE && l.char == 'I' && byteAt(l.input, l.pos+1) == 'f'))
+//@   modifies nothing
